@@ -90,6 +90,11 @@ IMAGES = [
     dict(spec=dict(name="c11_noflex_i256x", kb=16384,
                    args="-t ext4 -b 1024 -I 256 -O ^flex_bg,ea_inode,inline_data -g 4096 -J size=1",
                    tree="std", extras=["xattrs", "bigxattr"])),
+    # RAID stride layout: both bitmaps sit right behind the inode table, so growing the table
+    # (-I) has to relocate the block bitmap and the inode bitmap of a group
+    dict(spec=dict(name="c11_stride_i128", kb=20480,
+                   args="-t ext4 -b 1024 -I 128 -O ^flex_bg -E stride=4 -J size=1", tree="std",
+                   extras=["xattrs"])),
     dict(spec=dict(name="c11_ext3_i128", kb=8192, args="-t ext3 -b 1024 -I 128 -J size=1",
                    tree="wide", extras=["xattrs"]), index=True),
     dict(spec=dict(name="c11_noflex_nocsum", kb=8192,
@@ -132,7 +137,7 @@ def image_info(path):
                         pass
         sb = M.read_sb(path)
         return {"kinds": kinds, "features": M.features(sb), "inode_size": sb["s_inode_size"],
-                "bs": img.bs, "blocks": img.blocks_count}
+                "bs": img.bs, "blocks": img.blocks_count, "stride": sb.get("s_raid_stride", 0)}
 
 
 def w_base(arg):
@@ -348,6 +353,10 @@ FORCED = [
      [("feat", "quota", True), ("feat", "quota", False), ("feat", "quota", True)]),
     ("isize-grow/csum-toggle", lambda i: not _has(i, "flex_bg") and i["inode_size"] < min(512, i["bs"]),
      [("isize",), ("feat", "metadata_csum", "toggle"), ("feat", "metadata_csum", "toggle")]),
+    # stride layouts keep both bitmaps right behind the inode table: growing it relocates them
+    ("isize-grow-on-stride-layout", lambda i: not _has(i, "flex_bg") and i.get("stride") and
+     i["inode_size"] < min(512, i["bs"]),
+     [("isize",), ("uuid",)]),
     ("ea_inode/bigxattr/csum-toggle", lambda i: not _has(i, "ea_inode") and i["inode_size"] >= 256
      and i["blocks"] >= 8192,
      [("feat", "ea_inode", True), ("mutate", "bigxattr"), ("feat", "metadata_csum", "toggle"),
